@@ -52,6 +52,9 @@ type peerJ struct {
 	HandlerReplies map[string]notifJ `json:"handlerReplies"`
 	// EstWrites are WriteUpdate bodies issued from inside OnEstablished,
 	// HandlerWrites[k] from inside the k-th handler call.
+	// Gates: "Name#k" = the k-th invocation of callback Name blocks (after
+	// being logged) until a "release" step with call=Name, w=k.
+	Gates         []string           `json:"gates"`
 	EstWrites     [][]int            `json:"estWrites"`
 	HandlerWrites map[string][][]int `json:"handlerWrites"`
 }
@@ -194,6 +197,28 @@ type recPlugin struct {
 	// overlap detection for session callbacks
 	inflight int
 	overlap  bool
+	gates    map[string]chan struct{}
+	ncb      map[string]int
+}
+
+// hold blocks the calling callback while the gate of this invocation is closed.
+func (p *recPlugin) hold(name string) {
+	p.mu.Lock()
+	p.ncb[name]++
+	ch := p.gates[fmt.Sprintf("%s#%d", name, p.ncb[name])]
+	p.mu.Unlock()
+	if ch != nil {
+		<-ch
+	}
+}
+
+func (p *recPlugin) release(name string) {
+	p.mu.Lock()
+	defer p.mu.Unlock()
+	if ch := p.gates[name]; ch != nil {
+		close(ch)
+		delete(p.gates, name)
+	}
 }
 
 func (p *recPlugin) enter() {
@@ -213,6 +238,7 @@ func (p *recPlugin) exit() {
 
 func (p *recPlugin) GetCapabilities(pc corebgp.PeerConfig) []corebgp.Capability {
 	p.r.tr.emit(event{E: "cb", P: p.cfg.Name, N: "GetCapabilities"})
+	p.hold("GetCapabilities")
 	caps := make([]corebgp.Capability, 0, len(p.cfg.Caps))
 	for _, c := range p.cfg.Caps {
 		caps = append(caps, corebgp.Capability{Code: c.Code, Value: toBytes(c.Val)})
@@ -231,6 +257,7 @@ func (p *recPlugin) OnOpenMessage(pc corebgp.PeerConfig, rid netip.Addr, caps []
 		k = int64(a[0])<<24 | int64(a[1])<<16 | int64(a[2])<<8 | int64(a[3])
 	}
 	p.r.tr.emit(event{E: "cb", P: p.cfg.Name, N: "OnOpenMessage", K: k, Caps: cj})
+	p.hold("OnOpenMessage")
 	if p.cfg.OpenReply != nil {
 		return &corebgp.Notification{Code: p.cfg.OpenReply.Code, Subcode: p.cfg.OpenReply.Sub,
 			Data: toBytes(p.cfg.OpenReply.Data)}
@@ -247,6 +274,7 @@ func (p *recPlugin) OnEstablished(pc corebgp.PeerConfig, w corebgp.UpdateMessage
 	p.nUpd = 0
 	p.mu.Unlock()
 	p.r.tr.emit(event{E: "cb", P: p.cfg.Name, N: "OnEstablished", K: int64(k)})
+	p.hold("OnEstablished")
 	for _, b := range p.cfg.EstWrites {
 		err := w.WriteUpdate(toBytes(b))
 		p.r.tr.emit(event{E: "ret", P: p.cfg.Name, N: "writeCb", K: int64(k), R: errClass(err)})
@@ -266,6 +294,7 @@ func (p *recPlugin) OnEstablished(pc corebgp.PeerConfig, w corebgp.UpdateMessage
 		p.kept0 = append(p.kept0, cp)
 		p.mu.Unlock()
 		p.r.tr.emit(event{E: "cb", P: p.cfg.Name, N: "Update", K: int64(k), B: cp})
+		p.hold("Update")
 		key := fmt.Sprint(n)
 		for _, b := range p.cfg.HandlerWrites[key] {
 			err := w.WriteUpdate(toBytes(b))
@@ -285,6 +314,7 @@ func (p *recPlugin) OnClose(pc corebgp.PeerConfig) {
 	k := len(p.sess)
 	p.mu.Unlock()
 	p.r.tr.emit(event{E: "cb", P: p.cfg.Name, N: "OnClose", K: int64(k)})
+	p.hold("OnClose")
 }
 
 // retainedIntact reports whether every slice handed to the handler still has
@@ -548,6 +578,12 @@ func (r *run) doStep(st stepJ) error {
 			err := s.w.WriteUpdate(b)
 			r.tr.emit(event{E: "ret", P: st.Peer, N: "write", K: int64(st.W), R: errClass(err)})
 		}()
+	case "release":
+		pl := r.plugins[st.Peer]
+		if pl == nil {
+			return fmt.Errorf("unknown peer %q", st.Peer)
+		}
+		pl.release(fmt.Sprintf("%s#%d", st.Call, st.W))
 	case "nop":
 	case "multi":
 		for _, sub := range st.Multi {
@@ -636,7 +672,11 @@ func runScript(t *testing.T, sc scriptJ, w *bufio.Writer) {
 			return
 		}
 		for _, p := range sc.Peers {
-			r.plugins[p.Name] = &recPlugin{r: r, cfg: p}
+			pl := &recPlugin{r: r, cfg: p, gates: map[string]chan struct{}{}, ncb: map[string]int{}}
+			for _, g := range p.Gates {
+				pl.gates[g] = make(chan struct{})
+			}
+			r.plugins[p.Name] = pl
 			ra, _ := netip.ParseAddr(p.Remote)
 			r.byAddr[ra.String()] = p.Name
 		}
@@ -660,7 +700,12 @@ func runScript(t *testing.T, sc scriptJ, w *bufio.Writer) {
 			synctest.Wait()
 			enc(obsLine{K: "obs", I: i, T: r.tr.nowUnits(), Ev: r.tr.take(), Pend: r.pend()})
 		}
-		// epilogue: make sure the server is closed, then judge leaks
+		// epilogue: open every gate, make sure the server is closed, then judge leaks
+		for _, pl := range r.plugins {
+			for _, g := range pl.cfg.Gates {
+				pl.release(g)
+			}
+		}
 		if !closed {
 			go func() {
 				r.srv.Close()
